@@ -216,7 +216,7 @@ func reservedDomain() []reservedCase {
 }
 
 func runScen(r *mon.Run, prop string) {
-	n := map[string][2]int{"C03": {6000, 150000}, "C04": {6000, 100000}, "C05": {5000, 100000}, "C06": {5000, 80000}}[prop]
+	n := map[string][2]int{"C03": {6000, 1000000}, "C04": {6000, 600000}, "C05": {5000, 600000}, "C06": {5000, 500000}}[prop]
 	total := r.Pick(n[0], n[1])
 	rule := map[string]string{
 		"C03": "random import scenarios (constructor, prefix, ordered hint calls, 1-12 paths with ground-truth names, references in 12 syntactic contexts); non-trivial = rendered file has >=2 import specs; distinct by scenario text",
